@@ -43,8 +43,8 @@ def St.run (s : St) : List Op → St × List String
     let (s'', os) := s'.run ops
     (s'', o :: os)
 
-def St.init (dst : String) (inPkg : Bool) : St :=
-  { reg := { dstPkgPath := dst, inPackage := inPkg, imports := [] }, scopes := [] }
+def St.init (dst : String) (inPkg : Bool) (dstName : String := "") : St :=
+  { reg := { dstPkgPath := dst, inPackage := inPkg, imports := [], dstPkgName := dstName }, scopes := [] }
 
 /-- The operations of a history that address scope `k`, in order. -/
 def opsOf (k : Nat) : List Op → List ScopeOp
